@@ -159,6 +159,14 @@ CrossValidate(o, d) ==
   /\ last' = <<"CrossValidate", o, d, <<Canon(objs[o].params), d>>>>
   /\ UNCHANGED <<objs, handles>>
 
+(* scikit-learn GridSearchCV over ALL parameter settings of the world (each candidate is a clone with set_params     *)
+(* applied): the mean validation score of setting p is that of CrossValidate on an estimator constructed with p,   *)
+(* whatever the parameters and the fitted state of the estimator object handed to the search, which is untouched   *)
+GridSearch(o, d) ==
+  /\ HasCrossVal
+  /\ last' = <<"GridSearch", o, d>>
+  /\ UNCHANGED <<objs, handles>>
+
 (* the caller scribbles over a matrix it was given: nothing in the library changes; only that  *)
 (* caller-owned matrix is now "dirty" (its content is the caller's business from now on)      *)
 MutateReturned(h) == /\ handles[h].kind = "matrix"
@@ -177,7 +185,7 @@ Next ==
   \/ \E o \in Live :
        \/ \E p \in Params : SetParams(o, p)
        \/ Clone(o) \/ PickleRoundTrip(o)
-       \/ \E d \in Data : Fit(o, d) \/ FitTransform(o, d) \/ CrossValidate(o, d)
+       \/ \E d \in Data : Fit(o, d) \/ FitTransform(o, d) \/ CrossValidate(o, d) \/ GridSearch(o, d)
        \/ \E t \in Thresholds : SetThreshold(o, t)
        \/ \E v \in ValSets : \E s \in Strategies : Calibrate(o, v, s)
        \/ \E q \in Queries : Query(o, q)
